@@ -53,10 +53,11 @@ struct SubCrash
 };
 // Progress marker inside a case: a case that enumerates many inputs calls at(k) before input k; when the
 // worker dies the supervisor attributes the crash to (case, k) and resumes the case from k + 1.
+extern int g_substep_timeout_s;  // watchdog re-armed at every sub-step (default 20 s)
 struct Sub
 {
     std::atomic<int64_t>* slot = nullptr;
-    void at(int64_t k) { slot->store(k, std::memory_order_relaxed); }
+    void at(int64_t k);
 };
 struct CaseResult
 {
